@@ -89,6 +89,33 @@ theorem c08_executor_failure_is_failure (g : Gate) (y : Cls) (hy : y ≠ .block)
     classifyRun (applyGate g .failure y).success (applyGate g .failure y).blocked .failure y = .failure := by
   revert hy hb; cases g <;> cases y <;> decide
 
+/-- What an executor FAILURE is to the breaker, for every gate logic and every assessor verdict — the two
+    conditions of `c08_executor_failure_is_failure` made explicit: it is a failure outcome EXCEPT when the assessor
+    votes BLOCK (then the request counts as an intentional block, under every gate logic) and EXCEPT under OR logic
+    with an assessor PERMIT (then the request is not blocked at all — OR needs only one permission — and is
+    recorded as a success). -/
+theorem c08_executor_failure_outcome (g : Gate) (y : Cls) :
+    classifyRun (applyGate g .failure y).success (applyGate g .failure y).blocked .failure y =
+      if y = .block then .neither else if g = .or ∧ y = .permit then .success else .failure := by
+  cases g <;> cases y <;> decide
+
+/-- The excluded region of "executor failure" shown on a history (it is how the code and the model behave, and the
+    reading is stated in the claim): under OR logic with threshold 1 an agent exception trips the breaker; after
+    the recovery timeout a probe whose executor reports FAILURE while the assessor PERMITs comes back un-blocked
+    (OR is satisfied by the assessor's permission alone), is recorded as a success and CLOSES the half-open
+    breaker; and a stream of such requests never trips a closed breaker. -/
+theorem c08_or_executor_failure_with_permit_is_success_witness :
+    let cfg : Cfg := { gate := .or, threshold := 1, timeout := 60 }
+    let tr := exec cfg idHashes init [.run ⟨1, true⟩ .exc (.ret .permit), .adv 60,
+                                     .run ⟨2, true⟩ (.ret .failure) (.ret .permit),
+                                     .run ⟨3, true⟩ (.ret .failure) (.ret .permit),
+                                     .run ⟨4, true⟩ (.ret .failure) (.ret .permit)]
+    (tr.2.map fun o => (o.out.kind, o.out.result.map (·.blocked))) =
+      [(.agentExc, some true), (.admin, none), (.gated .success, some false), (.gated .success, some false),
+       (.gated .success, some false)] ∧
+    tr.1.br.cstate = .closed ∧ tr.1.br.failures = 0 ∧ tr.1.br.trips = 1 := by
+  decide
+
 /-- Intentional blocks are never counted as failures: whenever either agent votes BLOCK the request is not a
     failure outcome — for every gate logic, whatever the other agent answers. -/
 theorem c08_block_vote_never_failure (g : Gate) (z y : Cls) (h : z = .block ∨ y = .block) :
@@ -468,8 +495,12 @@ theorem c08_reset (cfg : Cfg) (H : Hashes) (s : State) :
 
 `Operon/Gen/BreakerTranslated.lean` is regenerated on every run from the AST of `loops.py` as it is now
 (harness/vf/extract/py2lean_breaker.py).  The theorems below prove that every translated method / block equals the
-hand-written model function for ALL configurations, clock values and breaker states, so every theorem of this file
-is a theorem about the translated source; an edit that changes the behaviour of one of these methods breaks the
+hand-written model function for ALL configurations, clock values and breaker states, so what this file proves about
+`checkCircuit` / `recordSuccess` / `recordFailure` / `resetBreaker` / the entry and update blocks is proved about the
+translated source.  (The ORDER circuit → cache → executor → assessor → gate → update → cache store and the extent of
+the `try` stay hand-written in `consult` / `afterCircuit`; they are tied by the differential correspondence and by
+`c08_translation_agrees_run_structure`, which is `decide` over four facts the extractor asserts about `run()` — an
+assertion of the extractor, not a translation.)  An edit that changes the behaviour of one of these methods breaks the
 agreement theorem of that name, an edit that leaves the translator's subset makes the definition `untranslatable`
 (same effect), a rewrite inside the subset that keeps the behaviour leaves them provable. -/
 
